@@ -39,7 +39,10 @@ def for_rule(name, state_at, check_inv):
             except _Continue:
                 pass
             except _Break:
-                raise Unsupported('break inside a loop verified by invariant')
+                # leaving the loop early from an arbitrary iteration whose entry state satisfies the invariant:
+                # execution simply continues after the loop (the else-clause is skipped)
+                ctx.effect('loop-break', name)
+                return None
             for label, f in check_inv(I, j + 1, env, it):
                 ctx.oblige('loop[%s]-invariant-preserved: %s' % (name, label), f)
             raise PathDone()
